@@ -68,7 +68,6 @@ func GetTimeFromTicks(intervalStart uint64, intervalsPerDay, intervalTicks uint3
 	const (
 		ticksPerIntervalDivSecsPerDay float64 = 49710.269629629629629629629629629
 		nanosecond                    float64 = 1000000000
-		subnanosecond                 float64 = 100000000
 	)
 
 	fractionalSeconds := float64(intervalTicks) / (float64(intervalsPerDay) * ticksPerIntervalDivSecsPerDay)
@@ -78,13 +77,19 @@ func GetTimeFromTicks(intervalStart uint64, intervalsPerDay, intervalTicks uint3
 		fractionalSeconds++
 	}
 
-	// in order to keep compatibility with the old rewriteBuffer implemented in C with some round error,
-	// fractionalSeconds should be rounded here.
-	sec = intervalStart + uint64(math.Round(fractionalSeconds*subnanosecond)/subnanosecond)
+	// the whole seconds are the floor of fractionalSeconds; they must not be rounded up independently of the
+	// sub-second part (rounding fractionalSeconds to 8 decimals used to carry into the seconds while the
+	// nanoseconds stayed at 99999999x, which made the decoded timestamp one second late).
+	sec = intervalStart + uint64(math.Floor(fractionalSeconds))
 	// round the subseconds after the decimal point to minimize the cancellation error of subseconds
 	// round( subseconds ) = (int32_t)(subseconds + 0.5)
 	const round = 0.5
 	nanosec = uint32(subseconds + round)
+	// carry into the next second only when the nanoseconds themselves round to a full second
+	if nanosec >= uint32(nanosecond) {
+		nanosec -= uint32(nanosecond)
+		sec++
+	}
 
 	return sec, nanosec
 }
